@@ -146,23 +146,54 @@ Proof.
 Qed.
 
 (* ---- maybe_append ---- *)
+(* [maybe_append_ok] asks for "the anchor index is inside the log or its term is not 0";
+   in Ok-form this is not needed: an anchor beyond the last index with term 0 "matches"
+   (term() answers 0 out of range), but then either nothing is appended or the append
+   leaves a gap and panics *)
 Lemma maybe_append_pres rw l i t cmt ents l' res :
   maybe_append l i t cmt ents = Ok (l', res) -> RepInv rw l ->
-  contiguous_from (i + 1) ents -> nz_terms ents ->
-  (i <= last_index l \/ t <> 0) -> i + N.of_nat (length ents) < u64_max ->
+  contiguous_from (i + 1) ents -> nz_terms ents -> i + N.of_nat (length ents) < u64_max ->
   RepInv rw l' /\ store l' = store l /\ applied l' = applied l.
 Proof.
-  intros H HI Hc Hnz Hit Hb. rewrite (abs_last rw l HI) in Hit.
-  destruct (ll_match (abs l) i t) eqn:Em.
-  - remember (ll_find_conflict (abs l) ents) as ci eqn:Eci.
-    assert (Hci : ci = 0 \/ committed l < ci).
-    { destruct (N.eq_dec ci 0) as [Hz|Hz]; [left; exact Hz|]. right.
-      destruct (N.lt_ge_cases (committed l) ci) as [Hlt|Hge]; [exact Hlt|]. exfalso.
-      rewrite (maybe_append_fatal rw l i t cmt ents HI Em) in H; [discriminate|]. subst ci. lia. }
-    destruct (maybe_append_ok rw l i t cmt ents HI Hc Hnz Hit Hb Em ltac:(rewrite <- Eci; exact Hci))
-      as (l2 & Hm2 & Hr & _ & _ & _ & Hap & Hst).
-    rewrite H in Hm2. inversion Hm2; subst l2. auto.
-  - rewrite (maybe_append_reject rw l i t cmt ents HI Em) in H. inversion H; subst. auto.
+  intros H HI Hc Hnz Hb.
+  assert (Hmain : (i <= ll_last (abs l) \/ t <> 0) ->
+                  RepInv rw l' /\ store l' = store l /\ applied l' = applied l).
+  { intros Hit. destruct (ll_match (abs l) i t) eqn:Em.
+    - remember (ll_find_conflict (abs l) ents) as ci eqn:Eci.
+      assert (Hci : ci = 0 \/ committed l < ci).
+      { destruct (N.eq_dec ci 0) as [Hz|Hz]; [left; exact Hz|]. right.
+        destruct (N.lt_ge_cases (committed l) ci) as [Hlt|Hge]; [exact Hlt|]. exfalso.
+        rewrite (maybe_append_fatal rw l i t cmt ents HI Em) in H; [discriminate|]. subst ci. lia. }
+      destruct (maybe_append_ok rw l i t cmt ents HI Hc Hnz Hit Hb Em ltac:(rewrite <- Eci; exact Hci))
+        as (l2 & Hm2 & Hr & _ & _ & _ & Hap & Hst).
+      rewrite H in Hm2. inversion Hm2; subst l2. auto.
+    - rewrite (maybe_append_reject rw l i t cmt ents HI Em) in H. inversion H; subst. auto. }
+  destruct (N.le_gt_cases i (ll_last (abs l))) as [Hil|Hil]; [apply Hmain; left; exact Hil|].
+  destruct (N.eq_dec t 0) as [Ht|Ht]; [|apply Hmain; right; exact Ht].
+  clear Hmain.
+  (* the anchor is beyond the last index and its term is 0 *)
+  subst t. unfold maybe_append in H. rewrite (match_term_abs rw l i 0 HI) in H.
+  assert (Em : ll_match (abs l) i 0 = true).
+  { unfold ll_match, ll_term. destruct (ll_last (abs l) <? i) eqn:E; [|lia].
+    rewrite orb_true_r. reflexivity. }
+  rewrite Em in H. cbn [bind negb] in H. rewrite (find_conflict_abs rw l ents HI) in H. cbn [bind] in H.
+  destruct ents as [|e0 t0].
+  - cbn [ll_find_conflict] in H. change (0 =? 0) with true in H. cbn [bind] in H.
+    destruct (u64_max <? _); [discriminate|]. inv_bind H. inversion H; subst.
+    destruct (commit_to_pres rw _ _ _ Hx HI) as (A & B1 & _ & B3). auto.
+  - exfalso. destruct Hc as [Hi0 _]. inversion Hnz as [|? ? Hte _]; subst.
+    assert (Emf : ll_match (abs l) (e_index e0) (e_term e0) = false).
+    { unfold ll_match, ll_term. destruct (ll_last (abs l) <? e_index e0) eqn:E; [|lia].
+      rewrite orb_true_r. cbn. apply N.eqb_neq. lia. }
+    cbn [ll_find_conflict] in H. rewrite Emf in H.
+    pose proof (ri_commit rw l HI) as Hcm.
+    destruct (e_index e0 =? 0) eqn:E0; [lia|].
+    destruct (e_index e0 <=? committed l) eqn:E1; [lia|].
+    destruct (i =? u64_max) eqn:E2; [lia|].
+    destruct (e_index e0 <? i + 1) eqn:E3; [lia|].
+    destruct (N.of_nat (length (e0 :: t0)) <? e_index e0 - (i + 1)) eqn:E4; [cbn [length] in E4; lia|].
+    replace (N.to_nat (e_index e0 - (i + 1))) with O in H by lia. cbn [skipn] in H.
+    rewrite (log_append_gap_panics rw l e0 t0 HI) in H by lia. discriminate.
 Qed.
 
 (* ---- restore ---- *)
@@ -558,24 +589,23 @@ Qed.
 
 (* ---------------- follower-side handlers ---------------- *)
 
-(* shape of an inbound MsgAppend, as weak as [maybe_append_ok] allows: the entries
-   are numbered consecutively after m_index, carry non-zero terms, do not run past
-   u64::MAX, and the anchor is inside the log or has a non-zero term *)
-Definition append_wf (li : N) (m : msg) : Prop :=
+(* shape of an inbound MsgAppend: the entries are numbered consecutively after
+   m_index, carry non-zero terms and do not run past u64::MAX (a predicate of the
+   message alone; [maybe_append_ok]'s fourth precondition is not needed in Ok-form) *)
+Definition append_wf (m : msg) : Prop :=
   contiguous_from (m_index m + 1) (m_entries m) /\ nz_terms (m_entries m)
-  /\ (m_index m <= li \/ m_log_term m <> 0)
   /\ m_index m + N.of_nat (length (m_entries m)) < u64_max.
 
 Lemma handle_append_entries_pres rw r m r' :
-  handle_append_entries r m = Ok r' -> append_wf (last_index (r_log r)) m -> LI rw r -> LI rw r'.
+  handle_append_entries r m = Ok r' -> append_wf m -> LI rw r -> LI rw r'.
 Proof.
-  unfold handle_append_entries. intros H (W1 & W2 & W3 & W4) HI.
+  unfold handle_append_entries. intros H (W1 & W2 & W4) HI.
   destruct (negb (r_pending_request_snapshot r =? INVALID_INDEX)).
   { apply send_request_snapshot_log in H. eapply LI_same; eassumption. }
   destruct (m_index m <? committed (r_log r)).
   { apply send_log in H. eapply LI_same; eassumption. }
   inv_bind H. destruct x as [l' res].
-  destruct (maybe_append_pres rw _ _ _ _ _ _ _ Hx HI W1 W2 W3 W4) as (A & _).
+  destruct (maybe_append_pres rw _ _ _ _ _ _ _ Hx HI W1 W2 W4) as (A & _).
   destruct res as [[a b]|].
   - apply send_log in H. eapply LI_same; [exact H|exact A].
   - inv_bind H. destruct x as [hi [ht|]]; [|discriminate].
@@ -706,7 +736,7 @@ Definition elect_type (t : N) : bool :=
 Definition msg_wf (li : N) (m : msg) : Prop :=
   (elect_type (m_type m) = true -> li + 1 < u64_max)
   /\ (m_type m = MsgPropose -> li + N.of_nat (length (m_entries m)) < u64_max)
-  /\ (m_type m = MsgAppend -> append_wf li m)
+  /\ (m_type m = MsgAppend -> append_wf m)
   /\ (m_type m = MsgSnapshot -> s_index (m_snapshot m) < u64_max).
 
 Lemma step_leader_pres rw r m r' c :
@@ -781,8 +811,7 @@ Proof.
     inv_bind H. destruct (become_follower_pres rw _ _ _ _ Hx HI) as [H1 L1].
     inv_bind H. inversion H; subst.
     destruct (m_type m =? MsgAppend) eqn:Ea.
-    { apply N.eqb_eq in Ea. eapply handle_append_entries_pres; [exact Hx0| |exact H1].
-      rewrite L1. exact (Wa Ea). }
+    { apply N.eqb_eq in Ea. eapply handle_append_entries_pres; [exact Hx0|exact (Wa Ea)|exact H1]. }
     destruct (m_type m =? MsgHeartbeat) eqn:Eh; [eapply handle_heartbeat_pres; eassumption|].
     cbn [orb] in E1. apply N.eqb_eq in E1.
     eapply handle_snapshot_pres; [exact Hx0|exact (Ws E1)|exact H1]. }
